@@ -923,6 +923,7 @@ func (c *wsConn) handleWsConn(ctx context.Context) {
 		case req := <-c.requests:
 			action = fmt.Sprintf("send-request(%s,%v)", req.req.Method, req.req.ID)
 			vpoint(c, "main.req", "id", req.req.ID, "method", req.req.Method)
+			vpoint(c, "main.req.params", "params", string(req.req.Params))
 
 			c.writeLk.Lock()
 			if req.req.ID != nil { // non-notification
